@@ -112,8 +112,8 @@ def enumerations(tier):
     subset of the persisted files, optionally break one task; run again (every insertion
     order of the tasks in thorough, three of them in quick; master-first and worker-first
     schedule, 1 or 2 workers); recover; run.  Plus all schedules of the second run with
-    <= 1 pre-emption for two chains on one worker (quick) / <= 2 pre-emptions for all
-    shapes on 1 and 2 workers (thorough)."""
+    <= 1 pre-emption for two chains on one worker (quick) / for all shapes on 1 and 2
+    workers, and <= 2 pre-emptions for two chains on one worker (thorough)."""
     import itertools
     run = {'op': 'run', 'workers': 1, 'sched': ('choices', [])}
 
@@ -141,15 +141,21 @@ def enumerations(tier):
                                'steps': [run] + mid + [second] + tail}
 
     def gen_dfs():
-        bound = 2 if tier == 'thorough' else 1
-        names = list(SHAPES3) if tier == 'thorough' else ['chain-hh', 'chain-sh']
-        for name in names:
-            for mid, broken in mids():
-                if tier != 'thorough' and len(mid) > 3:
-                    continue
-                for workers in ((1, 2) if tier == 'thorough' else (1,)):
-                    second = {'op': 'run', 'workers': workers, 'sched': ('dfs', bound)}
-                    yield {'n': 3, 'edges': SHAPES3[name], 'active0': 3, 'steps': [run] + mid + [second]}
+        if tier != 'thorough':
+            plan = [(['chain-hh', 'chain-sh'], 1, (1,), 3)]
+        else:
+            # all shapes with <= 1 pre-emption; two chains with <= 2 (a P=2 enumeration of one
+            # configuration is ~10^4 schedules of two runs each)
+            plan = [(list(SHAPES3), 1, (1, 2), 9), (['chain-hh', 'chain-sh'], 2, (1,), 2)]
+        for names, bound, workers_set, maxmid in plan:
+            for name in names:
+                for mid, broken in mids():
+                    if len(mid) > maxmid:
+                        continue
+                    for workers in workers_set:
+                        second = {'op': 'run', 'workers': workers, 'sched': ('dfs', bound)}
+                        yield {'n': 3, 'edges': SHAPES3[name], 'active0': 3,
+                               'steps': [run] + mid + [second]}
     return [('three-task-histories', gen, True), ('three-task-second-run-all-schedules', gen_dfs, True)]
 
 
